@@ -15,9 +15,9 @@ from harness.coqio import lit
 
 META = {
     'level': 'proof',
-    'technique': 'Coq proof that the fold of block merges equals a declarative layout, for all block lists and first residue ids; exact differential correspondence with MapToMolecule on generated force fields and residue graphs; frame conditions judged after ApplyLinks / ApplyModifications',
-    'gen_deps': [],
-    'eval_deps': ['theories/model/Blocks.vo'],
+    'technique': 'Coq proof that the fold of block merges equals a declarative layout, for all block lists and first residue ids; Coq proof of the frame of apply_mod with the applicability guard translated from the source; exact differential correspondence with MapToMolecule and ApplyModifications on generated force fields and residue graphs; frame conditions judged after ApplyLinks / ApplyModifications',
+    'gen_deps': ['Gen_mods'],
+    'eval_deps': ['theories/model/Blocks.vo', 'theories/model/Mods.vo', 'theories/gen/Gen_mods.vo'],
     'level_text': ("Theorem in Coq (Props/C01.v), by induction over the residue list with the fold invariant (contiguous indices, "
                    "residue id and charge group of the highest-index atom): for every first residue id and every list of non-empty "
                    "single-residue blocks the model of add_blocks/merge_molecule yields exactly the declarative layout; corollaries: "
@@ -26,7 +26,13 @@ META = {
                    "guards. The model is tied to the code by exact comparison with the real MapToMolecule on generated .ff force "
                    "fields and residue graphs (including permuted node keys and insertion orders); the frame clauses (links and "
                    "modifications change only what they target) are judged on the implementation after the real ApplyLinks / "
-                   "ApplyModifications. Multi-residue (from_itp) blocks are checked by the judge only, not modelled."),
+                   "ApplyModifications. Terminal modifications: a model of apply_mod (model/Mods.v) with the applicability guard "
+                   "translated from the source on every run (tie T, Gen_mods); theorems: keys and order kept, an atom is unchanged "
+                   "unless an applicable target's residue contains it and the modification lists its name, an attribute is unchanged "
+                   "unless such a modification lists it, interactions are only appended on atoms of an applicable target, "
+                   "non-applicable targets are the identity, listed values are set; the model is compared with the real "
+                   "ApplyModifications on the implementation's own pre-state. Multi-residue (from_itp) blocks are checked by the "
+                   "judge only, not modelled."),
     'level_note': ("Trusted: Coq kernel, harness, vermouth's .ff reader and merge_molecule (modelled by hand, validated by the runs). "
                    "No axioms. Hypotheses: contiguous residue ids, non-empty single-residue blocks (the quantifier's domain)."),
     'rule': ("cases = generated force fields (1-3 blocks of 1-4 atoms with bonds/angles/constraints/dihedrals/pairs/exclusions, "
@@ -201,6 +207,13 @@ SC2 {"replace": {"atype": "X2", "charge": 0}}
 C-ter
 [ atoms ]
 BB {"replace": {"atype": "Qa", "charge": -1}}
+[ modification ]
+SCL
+[ atoms ]
+SC1 { }
+SC2 {"replace": {"atype": "X3"}}
+[ bonds ]
+SC1 SC2 1 0.5 777
 """
 # the residue names polyply regards as protein residues (apply_modifications.protein_resnames); a
 # modification is applicable to those only -- PEO, and GLYC / LYSN which merely start like one, stay as they are
@@ -213,13 +226,50 @@ def protein_names():
 MOD_RESNAMES = ['GLY', 'ALA', 'LYS', 'GLY', 'ALA', 'LYS', 'GLYC', 'LYSN', 'PEO']
 MODS = {'N-ter': {'BB': {'atype': 'Qd', 'charge': 1.0}, 'SC1': {'atype': 'X1'}},
         'MID': {'SC2': {'atype': 'X2', 'charge': 0.0}},
-        'C-ter': {'BB': {'atype': 'Qa', 'charge': -1.0}}}
+        'C-ter': {'BB': {'atype': 'Qa', 'charge': -1.0}},
+        'SCL': {'SC1': {}, 'SC2': {'atype': 'X3'}}}
+MOD_INTERS = {'SCL': [('bonds', 'SC1', 'SC2', ['1', '0.5', '777'])]}
+
+
+MODS_PRELUDE = """From PV Require Import Mods Gen_mods.
+Open Scope string_scope.
+Open Scope Z_scope.
+Definition show_mods (m : option mol) :=
+  match m with
+  | None => None
+  | Some m => Some (map (fun a => (at_key a, at_attrs a)) (ml_atoms m), map (fun i => (in_sec i, in_atoms i, in_params i)) (ml_inters m))
+  end.
+"""
+
+
+def attr_text(v):
+    return repr(float(v)) if isinstance(v, (int, float)) else str(v)
+
+
+def coq_mod_case(g, plain, residue_atoms, mods):
+    """the model's apply_mod on the implementation's own state before the modifications"""
+    atoms = '[' + '; '.join(f"{{| at_key := {a['key']}; at_attrs := [(\"atomname\", {lit(a['name'])}); (\"atype\", {lit(a['atype'])}); "
+                            f"(\"charge\", {lit(attr_text(a['charge']))})] |}}" for a in plain['atoms']) + ']'
+    inters = '[' + '; '.join(f"{{| in_sec := {lit(sec)}; in_atoms := {lit(list(r['atoms']))}; in_params := {lit(list(r['params']))} |}}"
+                             for sec, rows in plain['inters'].items() for r in rows) + ']'
+    rname = {g['r0'] + i: n for i, n in enumerate(g['resnames'])}
+    residues = '[' + '; '.join(f"{{| rs_resid := {rid}; rs_resname := {lit(rname[rid])}; rs_from_itp := true; rs_atoms := {lit(list(keys))} |}}"
+                               for rid, keys in sorted(residue_atoms.items())) + ']'
+    table = '[' + '; '.join(
+        f"{{| md_name := {lit(name)}; md_atoms := [" + '; '.join(f"({lit(an)}, [" + '; '.join(f"({lit(k)}, {lit(attr_text(v))})" for k, v in rep.items()) + "])"
+                                                                   for an, rep in ats.items()) +
+        "]; md_inters := [" + '; '.join(f"{{| mi_sec := {lit(sec)}; mi_a := {lit(x)}; mi_b := {lit(y)}; mi_params := {lit(list(ps))} |}}"
+                                         for sec, x, y, ps in MOD_INTERS.get(name, [])) + "] |}" for name, ats in MODS.items()) + ']'
+    import re
+    targets = '[' + '; '.join(f"({int(re.search(r'(\d+)$', spec).group(1))}%Z, {lit(mod)})" for spec, mod in mods) + ']'
+    return f"show_mods (apply_mod mod_applicable {table} {residues} {{| ml_atoms := {atoms}; ml_inters := {inters} |}} {targets})"
 
 
 def mod_cases(ctx):
     """a modification changes nothing but the atoms it names in its target residue, whatever the
     node keys, the residue numbering and the other modifications of the same run"""
     rng = ctx.rng
+    exprs, keep = [], []
     for _ in range(ctx.n(40, 400)):
         n = rng.randint(2, 6)
         g = {'nres': n, 'shape': 'path', 'resnames': [rng.choice(MOD_RESNAMES) for _ in range(n)], 'edges': [(i, i + 1) for i in range(n - 1)],
@@ -230,7 +280,8 @@ def mod_cases(ctx):
         mods = []
         per_res = {}
         for t in targets:
-            mod = rng.choice(sorted(MODS))
+            # SCL names SC1 and SC2 and bonds them: only residues that have both can be its target
+            mod = 'SCL' if g['resnames'][t] in ('LYS', 'LYSN') and rng.random() < 0.5 else rng.choice(sorted(set(MODS) - {'SCL'}))
             resid = g['r0'] + t
             mods.append((f"{g['resnames'][t]}{resid}", mod))
             if g['resnames'][t] in protein_names():
@@ -255,9 +306,46 @@ def mod_cases(ctx):
                               f"(only atoms named by the modification of their own residue may change)",
                               {'mod_case': True, 'graph': g, 'mods': mods})
                 break
-        if plain['links']['inters'] != out['mods']['inters']:
-            ctx.violation('spec', f"modifications {mods} changed interactions they do not define",
+        # interactions: the old ones unchanged and in place; new ones only those the modification of an applicable target
+        # defines, on that residue's atoms
+        want_inters = {sec: [dict(r) for r in rows] for sec, rows in plain['links']['inters'].items()}
+        for spec, mod in mods:
+            resid = int(''.join(ch for ch in spec if ch.isdigit()))
+            if per_res.get(resid) is None or mod not in MOD_INTERS:
+                continue
+            key_of = {a['name']: a['key'] for a in plain['links']['atoms'] if a['resid'] == resid}
+            for sec, x, y, ps in MOD_INTERS[mod]:
+                want_inters.setdefault(sec, []).append({'atoms': [key_of[x], key_of[y]], 'params': list(ps), 'meta': {}})
+                ctx.feature('modification_adds_interaction')
+        if want_inters != out['mods']['inters']:
+            ctx.violation('spec', f"modifications {mods}: interactions differ from the blocks' and links' plus those the applicable modifications define",
                           {'mod_case': True, 'graph': g, 'mods': mods})
+        exprs.append(coq_mod_case(g, plain['links'], plain['residue_atoms'], mods))
+        keep.append((g, mods, out['mods']))
+    try:
+        res = core.coq_eval_cases(ctx, 'mods', MODS_PRELUDE, exprs, chunk=40)
+    except core.CoqEvalError as exc:
+        ctx.note(str(exc)[:800])
+        ctx.broken.append('correspondence:apply_mod vs model (evaluation failed)')
+        return
+    mism = 0
+    for (g, mods, impl), r in zip(keep, res):
+        im = ([(a['key'], a['name'], a['atype'], attr_text(a['charge'])) for a in impl['atoms']],
+              [(sec, list(x['atoms']), list(x['params'])) for sec, rows in impl['inters'].items() for x in rows])
+        if r is None:
+            model = None
+        else:
+            atoms, inters = r[1]
+            model = ([(int(k), dict(at).get('atomname'), dict(at).get('atype'), dict(at).get('charge')) for k, at in atoms],
+                     [(sec, [int(x) for x in ats], list(ps)) for sec, ats, ps in inters])
+        if model is None or model[0] != im[0] or sorted(model[1]) != sorted(im[1]):
+            mism += 1
+            if mism <= 3:
+                ctx.note(f"correspondence (modifications {mods} on {g['resnames']}): model {str(model)[:300]} != impl {str(im)[:300]}")
+                ctx.extra.setdefault('disagreements', []).append({'mod_case': True, 'graph': g, 'mods': mods})
+    ctx.extra['mods_correspondence'] = {'cases': len(keep), 'mismatches': mism}
+    if mism:
+        ctx.broken.append('correspondence:apply_mod vs model/Mods.v')
 
 
 def run(ctx):
